@@ -1099,7 +1099,7 @@ example : (0x10203#64).toNat < symLimit .c32 := by decide
 `generic_get_entry_*` refuse such a table; `generic_set_entry_*` (and therefore `swap_symbols`) had no
 such guard — the record written at `index * entry_size` reached past the section's last entry (found
 here, reported under the memory-safety property of table accesses on loaded files, C18).  Since
-fixes/16-reloc-set-entry-checks the setters have the getters' guards: the call leaves the table alone. -/
+fixes/21-reloc-set-entry-checks the setters have the getters' guards: the call leaves the table alone. -/
 
 /-- the member writes without the guard: ELF32 REL table with `sh_entsize = 4`, one 8-byte entry —
     the write for index 1 (8/4 = 2 "entries") goes 4 bytes past the 8-byte buffer -/
